@@ -1743,9 +1743,8 @@ class ListBox(Widget, WidgetContainerMixin):
             adjust = maxrow - (row_offset + rows)
             t = [(ro + adjust, w, p, r) for (ro, w, p, r) in t]
 
-        # if focus_widget (first in t) is off edge, remove it
-        row_offset, _w, _p, rows = t[0]
-        if row_offset + rows <= 0:
+        # remove the widgets that the page scrolls off the top edge (the old focus and what follows it)
+        while t and t[0][0] + t[0][3] <= 0:
             del t[0]
             snap_region_start -= 1
 
